@@ -43,6 +43,7 @@ type deferRec struct {
 type mapIter struct {
 	m       Val
 	visited string // SMT term of sort (Array K Bool)
+	started string // SMT Bool term: some iteration of the range loop has begun (a Next returned ok)
 	keyKind Kind
 	isStr   bool
 	isSlice bool
